@@ -218,3 +218,88 @@ def status_assumption(status, value=True):
             return None
         return r if value else (not r)
     return assume
+
+
+# -- results of a function along paths ---------------------------------------------
+def value_returns(cfg):
+    """Return nodes that give back something other than None."""
+    return [n for n in cfg.nodes if n.kind == 'stmt' and isinstance(n.ast, ast.Return) and
+            n.ast.value is not None and
+            not (isinstance(n.ast.value, ast.Constant) and n.ast.value.value is None)]
+
+
+def nodes_within(cfg, stmts):
+    """CFG nodes whose syntax lies inside the given statements."""
+    inside = set()
+    for s in stmts:
+        for x in ast.walk(s):
+            inside.add(id(x))
+    return [n for n in cfg.nodes if n.ast is not None and id(n.ast) in inside]
+
+
+def entry_of(cfg, stmts):
+    """first CFG node of a statement list (smallest id among its nodes)"""
+    ns = nodes_within(cfg, stmts)
+    return min(ns, key=lambda n: n.id) if ns else None
+
+
+def may_end_with_none(cfg, starts, edges_excluded=()):
+    """Some normal path from `starts` leaves the function without returning a
+    value (falls off the end or plain `return`): the caller sees None."""
+    starts = [s for s in starts if s is not None]
+    if not starts:
+        return False
+    r = cfg.reach(starts, avoid=value_returns(cfg), labels_excluded=EXC_LABELS,
+                  include_src=True, edges_excluded=edges_excluded)
+    return cfg.exit.id in r
+
+
+def must_end_with_none(cfg, starts, edges_excluded=()):
+    """Every normal path from `starts` that leaves the function gives None (and
+    at least one does)."""
+    starts = [s for s in starts if s is not None]
+    if not starts:
+        return False
+    r = cfg.reach(starts, labels_excluded=EXC_LABELS, include_src=True,
+                  edges_excluded=edges_excluded)
+    if any(v.id in r for v in value_returns(cfg)):
+        return False
+    return cfg.exit.id in r
+
+
+def branch_starts(cfg, test, label):
+    return [cfg.nodes[i] for i, lab in cfg.succ[test.id] if lab == label]
+
+
+def eq_test(e, x, y):
+    """Truth value of `e` when `x == y` holds (x, y given as source text), for
+    e of the form x == y / y == x / x != y / y != x; None for anything else."""
+    if isinstance(e, ast.Compare) and len(e.ops) == 1 and \
+            isinstance(e.ops[0], (ast.Eq, ast.NotEq, ast.Is, ast.IsNot)):
+        a, b = astq.norm_text(e.left), astq.norm_text(e.comparators[0])
+        if (a, b) in ((x, y), (y, x)):
+            return isinstance(e.ops[0], (ast.Eq, ast.Is))
+    return None
+
+
+def member_test(e, x, y=None):
+    """Truth value of `e` when `x in y` holds, for e = `x in y` / `x not in y`
+    (y = None: any container); None for anything else."""
+    if isinstance(e, ast.Compare) and len(e.ops) == 1 and \
+            isinstance(e.ops[0], (ast.In, ast.NotIn)):
+        if astq.norm_text(e.left) == x and \
+                (y is None or astq.norm_text(e.comparators[0]) == y):
+            return isinstance(e.ops[0], ast.In)
+    return None
+
+
+def none_test(e, x):
+    """Truth value of `e` when `x is None` holds, for e = `x is None` /
+    `x is not None` / `x == None` / `x != None`; None for anything else."""
+    if isinstance(e, ast.Compare) and len(e.ops) == 1 and \
+            isinstance(e.ops[0], (ast.Is, ast.IsNot, ast.Eq, ast.NotEq)):
+        a, b = e.left, e.comparators[0]
+        for p, q in ((a, b), (b, a)):
+            if astq.norm_text(p) == x and isinstance(q, ast.Constant) and q.value is None:
+                return isinstance(e.ops[0], (ast.Is, ast.Eq))
+    return None
